@@ -93,6 +93,196 @@ package gates
 //@   circuit sound-only
 //@   ensures res.numGateConstraints == numGateConstraints
 
+// ------------------------------------------------------------------ gate evaluators (C15)
+// Each EvalUnfiltered is proved equal, constraint by constraint, to the gate polynomial of plonky2
+// (plonky2/src/gates/*.rs, eval_unfiltered), written over the GF(p^2) specification functions of package
+// goldilocks; wires and constants are arbitrary canonical GF(p^2) values, gate parameters are symbolic.
+//@ def gv_ok(glApi, vars) = chipok(glApi) && canonQEs(vars.localConstants) && canonQEs(vars.localWires)
+//@ def qea_w(w, o) = tuple(w[o], w[o+1])
+
+//@ func (e *EvaluationVars) RemovePrefix(numSelectors uint64)
+//@   props C15
+//@   plain
+//@   requires numSelectors <= len(e.localConstants)
+//@   modifies e.localConstants
+//@   ensures len(e.localConstants) == len(old(e.localConstants)) - numSelectors
+//@   ensures forall(k, 0, len(e.localConstants), e.localConstants[k] == old(e.localConstants)[k + numSelectors])
+
+//@ func (e *EvaluationVars) GetLocalExtAlgebra(wireRange Range) (res gl.QuadraticExtensionAlgebraVariable)
+//@   props C15
+//@   plain
+//@   requires wireRange.start < 4294967296 && wireRange.end < 4294967296
+//@   ensures wireRange.end == wireRange.start + 2 && wireRange.start + 1 < len(e.localWires)
+//@   ensures res == qea_w(e.localWires, wireRange.start)
+//@   loop 0 invariant wireRange.start <= i && i <= wireRange.end && wireRange.end == wireRange.start + 2 &&
+//@        implies(i > wireRange.start, wireRange.start < len(e.localWires) && ret[0] == e.localWires[wireRange.start]) &&
+//@        implies(i > wireRange.start + 1, wireRange.start + 1 < len(e.localWires) && ret[1] == e.localWires[wireRange.start + 1])
+
+//@ def arith_c(w, c, i) = qe_subo(w[4*i+3], qe_addo(qe_mulo(qe_mulo(w[4*i], w[4*i+1]), c[0]), qe_mulo(w[4*i+2], c[1])))
+//@ func (g *ArithmeticGate) EvalUnfiltered(api frontend.API, glApi *gl.Chip, vars EvaluationVars) (res []gl.QuadraticExtensionVariable)
+//@   props C15
+//@   circuit
+//@   requires gv_ok(glApi, vars) && g.numOps < 1048576
+//@   complete_requires len(vars.localConstants) >= 2 && len(vars.localWires) >= 4*g.numOps
+//@   ensures len(res) == g.numOps && canonQEs(res)
+//@   ensures forall(k, 0, g.numOps, res[k] == arith_c(vars.localWires, vars.localConstants, k))
+//@   loop 0 invariant 0 <= i && i <= g.numOps && len(constraints) == i && canonQEs(constraints) && forall(k, 0, i, constraints[k] == arith_c(vars.localWires, vars.localConstants, k))
+
+//@ def aext_c(w, c, i) = qea_subo(qea_w(w, 8*i+6), qea_addo(qea_smulo(c[1], qea_w(w, 8*i+4)), qea_smulo(c[0], qea_mulo(qea_w(w, 8*i), qea_w(w, 8*i+2)))))
+//@ func (g *ArithmeticExtensionGate) EvalUnfiltered(api frontend.API, glApi *gl.Chip, vars EvaluationVars) (res []gl.QuadraticExtensionVariable)
+//@   props C15
+//@   circuit
+//@   requires gv_ok(glApi, vars) && g.numOps < 1048576
+//@   complete_requires len(vars.localConstants) >= 2 && len(vars.localWires) >= 8*g.numOps
+//@   ensures len(res) == 2*g.numOps && canonQEs(res)
+//@   ensures forall(k, 0, g.numOps, res[2*k] == aext_c(vars.localWires, vars.localConstants, k)[0] && res[2*k+1] == aext_c(vars.localWires, vars.localConstants, k)[1])
+//@   loop 0 invariant 0 <= i && i <= g.numOps && len(constraints) == 2*i && canonQEs(constraints) &&
+//@        forall(k, 0, i, constraints[2*k] == aext_c(vars.localWires, vars.localConstants, k)[0] && constraints[2*k+1] == aext_c(vars.localWires, vars.localConstants, k)[1])
+
+//@ def mext_c(w, c, i) = qea_subo(qea_w(w, 6*i+4), qea_smulo(c[0], qea_mulo(qea_w(w, 6*i), qea_w(w, 6*i+2))))
+//@ func (g *MultiplicationExtensionGate) EvalUnfiltered(api frontend.API, glApi *gl.Chip, vars EvaluationVars) (res []gl.QuadraticExtensionVariable)
+//@   props C15
+//@   circuit
+//@   requires gv_ok(glApi, vars) && g.numOps < 1048576
+//@   complete_requires len(vars.localConstants) >= 1 && len(vars.localWires) >= 6*g.numOps
+//@   ensures len(res) == 2*g.numOps && canonQEs(res)
+//@   ensures forall(k, 0, g.numOps, res[2*k] == mext_c(vars.localWires, vars.localConstants, k)[0] && res[2*k+1] == mext_c(vars.localWires, vars.localConstants, k)[1])
+//@   loop 0 invariant 0 <= i && i <= g.numOps && len(constraints) == 2*i && canonQEs(constraints) &&
+//@        forall(k, 0, i, constraints[2*k] == mext_c(vars.localWires, vars.localConstants, k)[0] && constraints[2*k+1] == mext_c(vars.localWires, vars.localConstants, k)[1])
+
+//@ func (g *ConstantGate) EvalUnfiltered(api frontend.API, glApi *gl.Chip, vars EvaluationVars) (res []gl.QuadraticExtensionVariable)
+//@   props C15
+//@   circuit
+//@   requires gv_ok(glApi, vars) && g.numConsts < 1048576
+//@   complete_requires len(vars.localConstants) >= g.numConsts && len(vars.localWires) >= g.numConsts
+//@   ensures len(res) == g.numConsts && canonQEs(res)
+//@   ensures forall(k, 0, g.numConsts, res[k] == qe_subo(vars.localConstants[k], vars.localWires[k]))
+//@   loop 0 invariant 0 <= i && i <= g.numConsts && len(constraints) == i && canonQEs(constraints) && forall(k, 0, i, constraints[k] == qe_subo(vars.localConstants[k], vars.localWires[k]))
+
+//@ func (g *NoopGate) EvalUnfiltered(api frontend.API, glApi *gl.Chip, vars EvaluationVars) (res []gl.QuadraticExtensionVariable)
+//@   props C15
+//@   circuit
+//@   ensures len(res) == 0
+
+//@ func (g *PublicInputGate) EvalUnfiltered(api frontend.API, glApi *gl.Chip, vars EvaluationVars) (res []gl.QuadraticExtensionVariable)
+//@   props C15
+//@   circuit
+//@   requires gv_ok(glApi, vars) && forall(k, 0, 4, canon(vars.publicInputsHash[k]))
+//@   complete_requires len(vars.localWires) >= 4
+//@   ensures len(res) == 4 && canonQEs(res)
+//@   ensures forall(k, 0, 4, res[k] == qe_subo(vars.localWires[k], tuple(vars.publicInputsHash[k], 0)))
+
+//@ def red_acc(w, n, i) = ite(i == n - 1, qea_w(w, 0), qea_w(w, 6 + n + 2*i))
+//@ def red_prev(w, n, i) = ite(i == 0, qea_w(w, 4), red_acc(w, n, i - 1))
+//@ def red_c(w, n, i) = qea_subo(qea_addo(qea_mulo(red_prev(w, n, i), qea_w(w, 2)), tuple(w[6 + i], tuple(0, 0))), red_acc(w, n, i))
+//@ func (g *ReducingGate) EvalUnfiltered(api frontend.API, glApi *gl.Chip, vars EvaluationVars) (res []gl.QuadraticExtensionVariable)
+//@   props C15
+//@   circuit
+//@   requires gv_ok(glApi, vars) && g.numCoeffs < 1048576
+//@   complete_requires len(vars.localWires) >= 6 + 3*g.numCoeffs
+//@   ensures len(res) == 2*g.numCoeffs && canonQEs(res)
+//@   ensures forall(k, 0, g.numCoeffs, res[2*k] == red_c(vars.localWires, g.numCoeffs, k)[0] && res[2*k+1] == red_c(vars.localWires, g.numCoeffs, k)[1])
+//@   loop 0 invariant 6 <= i && i <= 6 + g.numCoeffs && len(coeffs) == i - 6 && canonQEs(coeffs) && forall(k, 0, i - 6, coeffs[k] == vars.localWires[6 + k])
+//@   loop 1 invariant 0 <= i && i <= g.numCoeffs && len(accs) == i && forall(k, 0, i, canonQEA(accs[k]) && accs[k] == red_acc(vars.localWires, g.numCoeffs, k))
+//@   loop 2 invariant 0 <= i && i <= g.numCoeffs && len(constraints) == 2*i && canonQEs(constraints) && canonQEA(acc) && acc == red_prev(vars.localWires, g.numCoeffs, i) &&
+//@        forall(k, 0, i, constraints[2*k] == red_c(vars.localWires, g.numCoeffs, k)[0] && constraints[2*k+1] == red_c(vars.localWires, g.numCoeffs, k)[1])
+
+//@ def rex_acc(w, n, i) = ite(i == n - 1, qea_w(w, 0), qea_w(w, 6 + 2*n + 2*i))
+//@ def rex_prev(w, n, i) = ite(i == 0, qea_w(w, 4), rex_acc(w, n, i - 1))
+//@ def rex_c(w, n, i) = qea_subo(qea_addo(qea_mulo(rex_prev(w, n, i), qea_w(w, 2)), qea_w(w, 6 + 2*i)), rex_acc(w, n, i))
+//@ func (g *ReducingExtensionGate) EvalUnfiltered(api frontend.API, glApi *gl.Chip, vars EvaluationVars) (res []gl.QuadraticExtensionVariable)
+//@   props C15
+//@   circuit
+//@   requires gv_ok(glApi, vars) && g.numCoeffs < 1048576
+//@   complete_requires len(vars.localWires) >= 6 + 4*g.numCoeffs
+//@   ensures len(res) == 2*g.numCoeffs && canonQEs(res)
+//@   ensures forall(k, 0, g.numCoeffs, res[2*k] == rex_c(vars.localWires, g.numCoeffs, k)[0] && res[2*k+1] == rex_c(vars.localWires, g.numCoeffs, k)[1])
+//@   loop 0 invariant 0 <= i && i <= g.numCoeffs && len(coeffs) == i && forall(k, 0, i, canonQEA(coeffs[k]) && coeffs[k] == qea_w(vars.localWires, 6 + 2*k))
+//@   loop 1 invariant 0 <= i && i <= g.numCoeffs && len(accs) == i && forall(k, 0, i, canonQEA(accs[k]) && accs[k] == rex_acc(vars.localWires, g.numCoeffs, k))
+//@   loop 2 invariant 0 <= i && i <= g.numCoeffs && len(constraints) == 2*i && canonQEs(constraints) && canonQEA(acc) && acc == rex_prev(vars.localWires, g.numCoeffs, i) &&
+//@        forall(k, 0, i, constraints[2*k] == rex_c(vars.localWires, g.numCoeffs, k)[0] && constraints[2*k+1] == rex_c(vars.localWires, g.numCoeffs, k)[1])
+
+// plonky2 writes the multiplier of a step as  bit*base + (1 - bit); the Go code computes  bit*base - (bit*1 - 1).
+// ex_mulby follows the Go association; the lemma states that the two forms are the same GF(p^2) value for all
+// canonical bit (b0, b1) and product (x0, x1).
+//@ lemma ex_select_form(b0, b1, x0, x1) = implies(0 <= b0 && b0 < P && 0 <= b1 && b1 < P && 0 <= x0 && x0 < P && 0 <= x1 && x1 < P,
+//@        (x0 - (((b0*1 + 7*b1*0) % P - 1) % P)) % P == (x0 + (1 - b0) % P) % P && (x1 - (((b0*0 + b1*1) % P - 0) % P)) % P == (x1 + (0 - b1) % P) % P)
+//@   props C15
+//@ def ex_prev(w, n, i) = ite(i == 0, tuple(1, 0), qe_mulo(w[1 + n + i], w[1 + n + i]))
+//@ def ex_mulby(w, n, i) = qe_subo(qe_mulo(w[n - i], w[0]), qe_subo(qe_mulo(w[n - i], tuple(1, 0)), tuple(1, 0)))
+//@ def ex_c(w, n, i) = qe_subo(qe_mulo(ex_prev(w, n, i), ex_mulby(w, n, i)), w[2 + n + i])
+//@ func (g *ExponentiationGate) EvalUnfiltered(api frontend.API, glApi *gl.Chip, vars EvaluationVars) (res []gl.QuadraticExtensionVariable)
+//@   props C15
+//@   circuit
+//@   requires gv_ok(glApi, vars) && 1 <= g.numPowerBits && g.numPowerBits < 1048576
+//@   complete_requires len(vars.localWires) >= 2 + 2*g.numPowerBits
+//@   ensures len(res) == g.numPowerBits + 1 && canonQEs(res)
+//@   ensures forall(k, 0, g.numPowerBits, res[k] == ex_c(vars.localWires, g.numPowerBits, k))
+//@   ensures res[g.numPowerBits] == qe_subo(vars.localWires[1 + g.numPowerBits], vars.localWires[1 + 2*g.numPowerBits])
+//@   loop 0 invariant 0 <= i && i <= g.numPowerBits && len(powerBits) == i && canonQEs(powerBits) && forall(k, 0, i, powerBits[k] == vars.localWires[1 + k])
+//@   loop 1 invariant 0 <= i && i <= g.numPowerBits && len(intermediateValues) == i && canonQEs(intermediateValues) && forall(k, 0, i, intermediateValues[k] == vars.localWires[2 + g.numPowerBits + k])
+//@   loop 2 invariant 0 <= i && i <= g.numPowerBits && len(constraints) == i && canonQEs(constraints) && forall(k, 0, i, constraints[k] == ex_c(vars.localWires, g.numPowerBits, k))
+
+//@ func (g *BaseSumGate) limbs() (res []uint64)
+//@   props C15
+//@   plain
+//@   requires g.numLimbs < 1048576
+//@   ensures len(res) == g.numLimbs && forall(k, 0, g.numLimbs, res[k] == 1 + k)
+//@   loop 0 invariant 0 <= i && i <= g.numLimbs && len(limbIndices) == g.numLimbs && forall(k, 0, i, limbIndices[k] == 1 + k)
+
+// the limb product  prod_{j < base} (limb - j)  and the base-B recomposition (Horner form, = plonky2's reduce_with_powers)
+//@ recdef bs_prod(x QE, k int) QE = ite(k <= 0, tuple(1, 0), qe_mulo(bs_prod(x, k - 1), qe_subo(x, tuple(k - 1, 0))))
+//@ func (g *BaseSumGate) EvalUnfiltered(api frontend.API, glApi *gl.Chip, vars EvaluationVars) (res []gl.QuadraticExtensionVariable)
+//@   props C15
+//@   circuit
+//@   requires gv_ok(glApi, vars) && g.numLimbs < 1048576 && g.base < 1048576
+//@   complete_requires len(vars.localWires) >= 1 + g.numLimbs
+//@   ghost limbs []gl.QuadraticExtensionVariable
+//@   ensures len(limbs) == g.numLimbs && forall(k, 0, g.numLimbs, limbs[k] == vars.localWires[1 + k])
+//@   ensures len(res) == 1 + g.numLimbs && canonQEs(res)
+//@   ensures res[0] == qe_subo(qe_horner(limbs, tuple(g.base, 0), 0), vars.localWires[0])
+//@   ensures forall(k, 0, g.numLimbs, res[1 + k] == bs_prod(vars.localWires[1 + k], g.base))
+//@   loop 0 invariant -1 <= rangeindex && rangeindex < g.numLimbs && len(limbs) == g.numLimbs && len(limbIndices) == g.numLimbs &&
+//@        forall(k, 0, rangeindex + 1, canonQE(limbs[k]) && limbs[k] == vars.localWires[1 + k])
+//@   loop 1 invariant -1 <= rangeindex && rangeindex < g.numLimbs && len(constraints) == rangeindex + 2 && canonQEs(constraints) &&
+//@        constraints[0] == qe_subo(qe_horner(limbs, tuple(g.base, 0), 0), vars.localWires[0]) &&
+//@        forall(k, 0, rangeindex + 1, constraints[1 + k] == bs_prod(vars.localWires[1 + k], g.base))
+//@   loop 2 invariant 0 <= i && i <= g.base && canonQE(acc) && acc == bs_prod(limb, i)
+
+// RandomAccessGate: per copy c the constraints are  bit_j^2 - bit_j (j < bits),  recomposed index - access index,
+// and  selected item - claimed element, where the selection folds the 2^bits items pairwise, round r with bit r
+// (x + b*(y - x)); then one constraint per extra constant.  Verified per value of `bits` (cases g.bits 0 7).
+//@ def ra_stride(g) = 2 + pow2(g.bits)
+//@ def ra_routed(g) = ra_stride(g) * g.numCopies + g.numExtraConstants
+//@ def ra_bb(g, c) = ra_routed(g) + c * g.bits
+//@ recdef ra_item(w []QE, base int, bb int, r int, j int) QE = ite(r <= 0, w[base + j], qe_addo(ra_item(w, base, bb, r - 1, 2*j), qe_mulo(w[bb + r - 1], qe_subo(ra_item(w, base, bb, r - 1, 2*j + 1), ra_item(w, base, bb, r - 1, 2*j)))))
+//@ recdef ra_recon(w []QE, bb int, k int, n int) QE = ite(k >= n, tuple(0, 0), qe_muladd(ra_recon(w, bb, k + 1, n), tuple(2, 0), w[bb + k]))
+//@ def ra_bits_ok(res, w, g, c) = forall(j, 0, g.bits, res[c*(g.bits + 2) + j] == qe_subo(qe_mulo(w[ra_bb(g, c) + j], w[ra_bb(g, c) + j]), w[ra_bb(g, c) + j]))
+//@ def ra_recon_ok(res, w, g, c) = res[c*(g.bits + 2) + g.bits] == qe_subo(ra_recon(w, ra_bb(g, c), 0, g.bits), w[ra_stride(g) * c])
+//@ def ra_item_ok(res, w, g, c) = res[c*(g.bits + 2) + g.bits + 1] == qe_subo(ra_item(w, ra_stride(g) * c + 2, ra_bb(g, c), g.bits, 0), w[ra_stride(g) * c + 1])
+//@ func (g *RandomAccessGate) EvalUnfiltered(api frontend.API, glApi *gl.Chip, vars EvaluationVars) (res []gl.QuadraticExtensionVariable)
+//@   props C15
+//@   circuit
+//@   cases g.bits 0 7
+//@   requires gv_ok(glApi, vars) && g.bits < 7 && g.numCopies < 1048576 && g.numExtraConstants < 1048576
+//@   complete_requires len(vars.localWires) >= ra_routed(g) + g.numCopies * g.bits && len(vars.localConstants) >= g.numExtraConstants
+//@   ensures len(res) == g.numCopies * (g.bits + 2) + g.numExtraConstants && canonQEs(res)
+//@   ensures forall(c, 0, g.numCopies, ra_bits_ok(res, vars.localWires, g, c))
+//@   ensures forall(c, 0, g.numCopies, ra_recon_ok(res, vars.localWires, g, c))
+//@   ensures forall(c, 0, g.numCopies, ra_item_ok(res, vars.localWires, g, c))
+//@   ensures forall(k, 0, g.numExtraConstants, res[g.numCopies * (g.bits + 2) + k] == qe_subo(vars.localConstants[k], vars.localWires[ra_stride(g) * g.numCopies + k]))
+//@   loop 0 invariant 0 <= copy && copy <= g.numCopies && copy <= 1048576 && len(constraints) == copy * (g.bits + 2)
+//@   loop 0 invariant canonQEs(constraints)
+//@   loop 0 invariant forall(c, 0, copy, ra_bits_ok(constraints, vars.localWires, g, c))
+//@   loop 0 invariant forall(c, 0, copy, ra_recon_ok(constraints, vars.localWires, g, c))
+//@   loop 0 invariant forall(c, 0, copy, ra_item_ok(constraints, vars.localWires, g, c))
+//@   loop 6 invariant 0 <= i && i <= g.numExtraConstants && i <= 1048576 && len(constraints) == g.numCopies * (g.bits + 2) + i
+//@   loop 6 invariant canonQEs(constraints)
+//@   loop 6 invariant forall(c, 0, g.numCopies, ra_bits_ok(constraints, vars.localWires, g, c))
+//@   loop 6 invariant forall(c, 0, g.numCopies, ra_recon_ok(constraints, vars.localWires, g, c))
+//@   loop 6 invariant forall(c, 0, g.numCopies, ra_item_ok(constraints, vars.localWires, g, c))
+//@   loop 6 invariant forall(k, 0, i, constraints[g.numCopies * (g.bits + 2) + k] == qe_subo(vars.localConstants[k], vars.localWires[ra_stride(g) * g.numCopies + k]))
+
 //@ func (g *EvaluateGatesChip) EvaluateGateConstraints(vars EvaluationVars) (res []gl.QuadraticExtensionVariable)
 //@   props C15
 //@   circuit
